@@ -204,9 +204,13 @@ def run(chk):
     ok = len(asg) == 1 and reorder and len(reorder[0].args) == 1 and unparse(reorder[0].args[0]) == unparse(asg[0].targets[0])
     chk.ob("C16-R2", "sequentials.main.Sequential.sequentialize[same value]", ok,
            "reorder_equations receives exactly the computed order", sm.loc(g))
-    first = body[0] if body else None
-    ok = isinstance(first, ast.If) and unparse(first.test) == "self.is_sequential" and len(first.body) == 1 and isinstance(first.body[0], ast.Return) \
-        and not any(isinstance(n, ast.Call) and dotted(n.func) and dotted(n.func).startswith("self.reorder") for n in ast.walk(first))
+    from ..core import conditions_at
+    # every mutating call is reached only when the model is NOT already sequential, and some path returns under "is sequential"
+    muts = reorder + [n for _, n in calls if dotted(n.func) and dotted(n.func).startswith("self.reorder")]
+    guarded = all(("self.is_sequential", False) in conditions_at(g, c) for c in muts) if muts else None
+    rets = [r for r in walk_no_nested(g) if isinstance(r, ast.Return)]
+    returns_early = any(("self.is_sequential", True) in conditions_at(g, r) for r in rets)
+    ok = (guarded and returns_early) if guarded is not None else None
     chk.ob("C16-R2", "sequentials.main.Sequential.sequentialize[already sequential]", ok,
            "returns the identity order without touching the model", sm.loc(g))
     # reorder_equations on the model delegates to the invariant
